@@ -8,13 +8,16 @@ import (
 
 // weights of the op kinds of a generated history (intent-encoded: every op is valid in every state)
 type hWeights struct {
-	deliver, ack, ackidx, save, savefail, savebegin, saveend, crash, rebalance, ackold int
-	absorbed                                                                           int // percentage of deliveries that are non-document / internal-key events
-	outside                                                                            int // per-mille of deliveries placed outside their snapshot (C06)
-	maxVb, minOps, maxOps                                                              int
+	deliver, ack, ackidx, save, savefail, savebegin, saveend, crash, rebalance, ackold, end int
+	absorbed                                                                                int // percentage of deliveries that are non-document / internal-key events
+	outside                                                                                 int // per-mille of deliveries placed outside their snapshot (C06)
+	reopenFail                                                                              int // per-mille of transient ends whose first reopen attempt is refused
+	maxVb, minOps, maxOps                                                                   int
 }
 
 var absorbedKinds = []string{"cc", "cd", "cf", "sc", "sd", "cm", "adv", "adv", "ikey", "txn"}
+var endCauseNames = []string{"socket", "backfill", "state", "slow", "disconnected", "socket", "backfill", "state", "slow", "disconnected",
+	"socket_wrapped", "state_wrapped", "closed", "filter_empty", "lost_privileges", "generic", "ok", "ok"}
 var docKinds = []string{"mut", "mut", "mut", "del", "exp"}
 
 func genHistory(t *rapid.T, w hWeights) hScenario {
@@ -39,6 +42,7 @@ func genHistory(t *rapid.T, w hWeights) hScenario {
 	add("crash", w.crash)
 	add("rebalance", w.rebalance)
 	add("ackold", w.ackold)
+	add("end", w.end)
 	opGen := rapid.Custom(func(t *rapid.T) hOp {
 		k := rapid.SampledFrom(kinds).Draw(t, "op")
 		op := hOp{Op: k}
@@ -81,6 +85,10 @@ func genHistory(t *rapid.T, w hWeights) hScenario {
 			op.Snap = rapid.IntRange(0, 9).Draw(t, "which")
 		case "ackold":
 			op.N = rapid.IntRange(0, 63).Draw(t, "i")
+		case "end":
+			op.Vb = rapid.IntRange(0, nvb-1).Draw(t, "vb")
+			op.Kind = rapid.SampledFrom(endCauseNames).Draw(t, "cause")
+			op.Fail = w.reopenFail > 0 && rapid.IntRange(0, 999).Draw(t, "refuse") >= 1000-w.reopenFail
 		}
 		return op
 	})
